@@ -21,9 +21,44 @@ C12_TARGETS = [
     CMD + "SetStateCommand.__init__", CMD + "SetStateCommand.tobytes",
 ]
 
+AC = "msmart.device.AC.device.AirConditioner"
+
+C12_FILTER = r"\.(post\.(wf|len|id|inv|query|toggle|body|length|checksum|payload|page|indoor|beep|props|consecutive|range|table_is_polynomial|table_len)|returns|assign\.|call\.|loop\d|frame\.|noraise|raises)"
+
 PROPS = {
-    "C12": {
-        "targets": C12_TARGETS,
-        "level": "proof",
-    },
+    "C10": {"targets": [CMD + "SetStateCommand.__init__", CMD + "SetStateCommand.tobytes", CMD + "Command.tobytes",
+                        CMD + "Command._next_message_id", "msmart.frame.Frame.tobytes", "msmart.frame.Frame.checksum",
+                        "msmart.crc8.calculate", "crc8.table", "crc8.step_range",
+                        (AC + ".apply", r"c10\.|control_first|noraise|call\.")],
+            "level": "proof"},
+    "C11": {"targets": [CMD + "StateResponse._parse_temperature", CMD + "StateResponse._parse", CMD + "StateResponse.__init__",
+                        (CMD + "Response.construct", r"dispatch|payload|long_enough|noraise|call\."),
+                        (AC + "._update_state", r"state\.|noraise|frame|call\.")],
+            "level": "proof"},
+    "C12": {"targets": C12_TARGETS + [CMD + "SetPropertiesCommand.__init__", CMD + "SetPropertiesCommand.tobytes",
+                                       CMD + "GetPropertiesCommand.__init__", CMD + "GetPropertiesCommand.tobytes",
+                                       CMD + "PropertyId.encode"],
+            "level": "proof"},
+    "C13": {"targets": ["msmart.frame.Frame.validate", "msmart.frame.Frame.checksum", "msmart.crc8.calculate", "crc8.table", "crc8.step_range",
+                        CMD + "Response.validate", CMD + "Response.construct",
+                        AC + "._send_command_get_responses", AC + ".refresh#no_valid_response",
+                        (AC + "._update_state", r"other\.|unknown_ignored|noraise|frame")],
+            "level": "proof"},
+    "C14": {"targets": [CMD + "Response.construct", CMD + "StateResponse.__init__", CMD + "CapabilitiesResponse.__init__",
+                        CMD + "CapabilitiesResponse._parse_capabilities", CMD + "PropertiesResponse.__init__",
+                        CMD + "PropertiesResponse._parse", CMD + "PropertyId.decode",
+                        AC + "._update_state", AC + "._update_capabilities", AC + "._send_command_get_responses",
+                        AC + "._send_command_get_response_with_id", AC + ".refresh", AC + ".apply", AC + "._apply_properties",
+                        AC + ".get_capabilities", AC + ".toggle_display", AC + ".start_self_clean"],
+            "level": "proof"},
+    "C15": {"targets": [CMD + "CapabilitiesResponse._parse_capabilities#wf", CMD + "CapabilitiesResponse.merge",
+                        AC + ".get_capabilities", AC + "._update_capabilities"],
+            "level": "proof"},
+    "C16": {"targets": [CMD + "PropertyId.encode", CMD + "PropertyId.decode", "C16.read_back", "C16.at_most_one_breeze_mode",
+                        AC + ".breeze_away!setter", AC + ".breezeless!setter", AC + ".breeze_mild!setter", AC + ".ieco!setter",
+                        AC + ".rate_select!setter", AC + ".horizontal_swing_angle!setter", AC + ".vertical_swing_angle!setter",
+                        CMD + "SetPropertiesCommand.__init__", CMD + "SetPropertiesCommand.tobytes",
+                        (AC + ".apply", r"c16\.|noraise|call\."), AC + "._apply_properties", AC + ".start_self_clean",
+                        (AC + "._update_capabilities", r"props\.|noraise")],
+            "level": "proof"},
 }
